@@ -231,7 +231,13 @@ func beMemoryLike(b int) bool {
 }
 func beSeekable(b int) bool { return b != beStream }
 
+type heldBytes struct {
+	s, copy []byte
+	at      int64
+}
+
 type c19 struct {
+	held    []heldBytes
 	ctx     *core.Ctx
 	le      bool
 	be      int
@@ -324,6 +330,11 @@ type brModel struct {
 
 // checkState verifies Pos, Len and Err after an operation.
 func (m *c19) checkState(b *brModel, op string) *core.Violation {
+	for i := range m.held {
+		if h := &m.held[i]; !eq(h.s, h.copy) {
+			return m.viol("readbytes-result-changed", "the byte string returned by ReadBytes at %d (%q) changed to %q after %s on reader %d: a value the caller holds was overwritten", h.at, clip(h.copy), clip(h.s), op, b.id)
+		}
+	}
 	pos, ln, err := b.r.Pos(), b.r.Len(), b.r.Err()
 	if b.eof {
 		if err != io.EOF {
@@ -382,6 +393,9 @@ func (m *c19) doReadBytes(b *brModel, n int64, asString bool) *core.Violation {
 		got = b.r.ReadBytes(n)
 	}
 	m.ctx.L.EvB(name, got)
+	if !asString && len(got) > 0 && len(m.held) < 32 {
+		m.held = append(m.held, heldBytes{s: got, copy: append([]byte(nil), got...), at: b.pos})
+	}
 	if !b.eof && n <= m.size-b.pos {
 		if !eq(got, m.data[b.pos:b.pos+n]) {
 			return m.viol("bytes-wrong", "%s(%d) at %d = %q, want %q", name, n, b.pos, clip(got), clip(m.data[b.pos:b.pos+n]))
@@ -578,7 +592,7 @@ func RunC19(ctx *core.Ctx) *core.Violation {
 		} else {
 			ln := t.Draw(7)
 			if t.Chance(1, 40) {
-				ln = t.Range(1000, 9000) // larger than a page
+				ln = t.Pick(t.Range(1000, 9000), 4095, 4096, 4097, 65535, 65536, 70000) // larger than a page, around thresholds
 				ctx.Count("probe_big_blob")
 			}
 			op.b = genData(t, ln, 2)
@@ -852,6 +866,10 @@ func runC19Bitmap(ctx *core.Ctx) *core.Violation {
 	if t.Chance(1, 2) {
 		// written bits come back in order
 		n := t.Draw(70)
+		if t.Chance(1, 40) {
+			n = t.Pick(255, 256, 2047, 2048, 65535, 65536, 65537, 70001) // bit counts around byte, page and 2^16 boundaries
+			ctx.Count("probe_bitmap_large")
+		}
 		var pre []byte
 		if t.Chance(1, 3) {
 			// a recycled buffer: length 0, spare capacity full of old content
